@@ -101,6 +101,8 @@ fn make_invlpgb(count_max: u16, nested: bool, nasid: u32, cs: u16) -> Result<Opt
 
 #[derive(Clone, Copy, Debug)]
 pub struct Opts {
+    /// bit mask of options applied BEFORE pages() (bit 0 pcid, 1 asid, 2 global, 3 final-only, 4 nested); the others after
+    pub pre: u32,
     pub pcid: Option<u16>,
     pub asid: Option<u16>,
     pub global: bool,
@@ -120,21 +122,43 @@ pub fn invlpgb_case<S: x86_64::structures::paging::page::NotGiantPageSize>(r: &m
     let range = Page::<S>::range(Page::from_start_address(VirtAddr::new(start)).unwrap(), Page::from_start_address(VirtAddr::new(end)).unwrap());
     cpu().clear_events();
     let res = run_fault(|| {
-        let b = inv.build();
-        let mut b = b.pages(range);
-        if let Some(p) = o.pcid {
-            unsafe { b.pcid(Pcid::new(p).unwrap()) };
+        let mut b0 = inv.build();
+        // options applied before pages()
+        if o.pre & 1 != 0 {
+            if let Some(p) = o.pcid {
+                unsafe { b0.pcid(Pcid::new(p).unwrap()) };
+            }
         }
-        if let Some(a) = o.asid {
-            unsafe { b.asid(a).ok() };
+        if o.pre & 2 != 0 {
+            if let Some(a) = o.asid {
+                unsafe { b0.asid(a).ok() };
+            }
         }
-        if o.global {
+        if o.pre & 4 != 0 && o.global {
+            b0.include_global();
+        }
+        if o.pre & 8 != 0 && o.final_only {
+            b0.final_translation_only();
+        }
+        let b0 = if o.pre & 16 != 0 && o.nested { b0.include_nested_translations() } else { b0 };
+        let mut b = b0.pages(range);
+        if o.pre & 1 == 0 {
+            if let Some(p) = o.pcid {
+                unsafe { b.pcid(Pcid::new(p).unwrap()) };
+            }
+        }
+        if o.pre & 2 == 0 {
+            if let Some(a) = o.asid {
+                unsafe { b.asid(a).ok() };
+            }
+        }
+        if o.pre & 4 == 0 && o.global {
             b.include_global();
         }
-        if o.final_only {
+        if o.pre & 8 == 0 && o.final_only {
             b.final_translation_only();
         }
-        let b = if o.nested { b.include_nested_translations() } else { b };
+        let b = if o.pre & 16 == 0 && o.nested { b.include_nested_translations() } else { b };
         b.flush();
     });
     let ev = cpu().evs();
@@ -248,7 +272,7 @@ fn invlpgb_all(r: &mut Rep, a: &Args) {
             }
             let lens: Vec<u64> = if a.thorough() { (0..=20).chain([63, 64, 65, 255, 256, 257, 300]).collect() } else { vec![0, 1, 2, 3, 4, 7, 8, 9, 20, 257] };
             for opt in 0..32u32 {
-                let o = Opts { pcid: (opt & 1 != 0).then_some(0xabc), asid: (opt & 2 != 0).then_some(7), global: opt & 4 != 0, final_only: opt & 8 != 0, nested: opt & 16 != 0 && nested_sup };
+                let o = Opts { pre: 0, pcid: (opt & 1 != 0).then_some(0xabc), asid: (opt & 2 != 0).then_some(7), global: opt & 4 != 0, final_only: opt & 8 != 0, nested: opt & 16 != 0 && nested_sup };
                 if opt & 16 != 0 && !nested_sup {
                     // documented assertion: nested flush unsupported => panic, nothing flushed
                     if opt == 16 {
@@ -285,8 +309,27 @@ fn invlpgb_all(r: &mut Rep, a: &Args) {
                     place!(Size2MiB);
                 }
             }
+            // builder call order: every option subset x every assignment of its options to before/after pages()
+            for opt in 0..32u32 {
+                if opt & 16 != 0 && !nested_sup {
+                    continue;
+                }
+                let mut pre = opt;
+                loop {
+                    // pre runs through all submasks of opt
+                    let o = Opts { pre, pcid: (opt & 1 != 0).then_some(0x5a5), asid: (opt & 2 != 0).then_some(3), global: opt & 4 != 0, final_only: opt & 8 != 0, nested: opt & 16 != 0 };
+                    if pre != 0 {
+                        invlpgb_case::<Size4KiB>(r, &inv, cm, 0x7000_0000, 5, o);
+                        invlpgb_case::<Size2MiB>(r, &inv, cm, 0xffff_8000_0000_0000, 2, o);
+                    }
+                    if pre == 0 {
+                        break;
+                    }
+                    pre = (pre - 1) & opt;
+                }
+            }
             if a.thorough() && cm >= 255 {
-                invlpgb_case::<Size4KiB>(r, &inv, cm, (1u64 << 47) - 70_000 * 4096, 70_000 + 10, Opts { pcid: None, asid: None, global: false, final_only: false, nested: false });
+                invlpgb_case::<Size4KiB>(r, &inv, cm, (1u64 << 47) - 70_000 * 4096, 70_000 + 10, Opts { pre: 0, pcid: None, asid: None, global: false, final_only: false, nested: false });
             }
         }
     }
